@@ -107,6 +107,10 @@ class FromArray(IO):
             return self
         return super().lower_once(lowered)
 
+    @property
+    def _name_is_exact(self):
+        return bool(self.operand("_name_is_exact"))
+
     @functools.cached_property
     def _name(self):
         prefix = self.operand("_name_override") or "fromarray"
@@ -435,6 +439,18 @@ class FromArray(IO):
 
         return self._with_chunks(chunks)
 
+    def _derived_token(self, name):
+        """Token of a node derived from this one under the exact name ``name``.
+
+        The derived name extends ``self._name``, which identifies the source
+        only when it is content-derived.  A user-named source (``name="foo"``)
+        is told apart from another one of the same name by its token alone, so
+        the derived node has to carry that token on: with the bare
+        ``(type, name)`` token, parents of ``a[:5]`` and ``b[:5]`` for two
+        arrays named alike got one name and were taken for one another.
+        """
+        return (type(self), name, self.deterministic_token)
+
     def _with_chunks(self, chunks):
         name = f"{self._name}-rechunk-{tokenize(self.chunks, chunks)}"
         return FromArray(
@@ -449,6 +465,7 @@ class FromArray(IO):
             _name_override=name,
             _name_is_exact=True,
             _region=self.operand("_region"),
+            _determ_token=self._derived_token(name),
         )
 
     def _accept_slice(self, slice_expr):
@@ -535,11 +552,16 @@ class FromArray(IO):
             _name_override=name,
             _name_is_exact=True,
             _region=new_region,
+            _determ_token=self._derived_token(name),
         )
 
         if has_integers:
             extract_index = tuple(0 if isinstance(idx, Integral) else slice(None) for idx in full_index)
             extract_token = "-".join(f"i{idx}" if isinstance(idx, Integral) else "s" for idx in extract_index)
+            if self._name_is_exact:
+                # an exact name may be shared by different sources (see
+                # ``_derived_token``): tell their extracts apart as well
+                extract_token = f"{extract_token}-{tokenize(new_io.deterministic_token)}"
             return SliceSlicesIntegers(
                 new_io,
                 extract_index,
